@@ -268,3 +268,55 @@ pub fn stdin_devnull() {
         }
     }
 }
+
+/// Temporary capture of one of the process's descriptors (stdout of an in-process run) in a
+/// memfd; `finish` puts the original descriptor back and returns what was written.
+pub struct FdCapture {
+    fd: i32,
+    saved: i32,
+    target: i32,
+}
+
+impl FdCapture {
+    pub fn install(target: i32) -> Option<FdCapture> {
+        unsafe {
+            let name = CString::new("fusim-capture").unwrap();
+            let fd = libc::memfd_create(name.as_ptr(), 0);
+            if fd < 0 {
+                return None;
+            }
+            let saved = libc::dup(target);
+            if saved < 0 {
+                libc::close(fd);
+                return None;
+            }
+            libc::fcntl(saved, libc::F_SETFD, libc::FD_CLOEXEC);
+            if libc::dup2(fd, target) < 0 {
+                libc::close(fd);
+                libc::close(saved);
+                return None;
+            }
+            Some(FdCapture { fd, saved, target })
+        }
+    }
+
+    pub fn finish(self) -> Vec<u8> {
+        unsafe {
+            libc::dup2(self.saved, self.target);
+            libc::close(self.saved);
+            let end = libc::lseek(self.fd, 0, libc::SEEK_END);
+            let mut buf = vec![0u8; end.max(0) as usize];
+            let mut off = 0usize;
+            while off < buf.len() {
+                let n = libc::pread(self.fd, buf[off..].as_mut_ptr() as *mut libc::c_void, buf.len() - off, off as i64);
+                if n <= 0 {
+                    break;
+                }
+                off += n as usize;
+            }
+            buf.truncate(off);
+            libc::close(self.fd);
+            buf
+        }
+    }
+}
